@@ -109,8 +109,16 @@ fn observe_opt(w: &World, weights: bool) -> FuObs {
     let mut positions: Vec<fm::Position> = vec![];
     for u in 0..N_USERS {
         for open in [true, false] {
-            if let Ok(r) = w.query::<fm::PositionsResponse, _>(&w.farm_manager, &fm::QueryMsg::Positions { filter_by: Some(fm::PositionsBy::Receiver(w.users[u].to_string())), open_state: Some(open), start_after: None, limit: Some(100) }) {
+            // paginate: the contract caps a page at ten entries, and nothing guarantees that a user holds at most ten
+            let mut after: Option<String> = None;
+            loop {
+                let Ok(r) = w.query::<fm::PositionsResponse, _>(&w.farm_manager, &fm::QueryMsg::Positions { filter_by: Some(fm::PositionsBy::Receiver(w.users[u].to_string())), open_state: Some(open), start_after: after.clone(), limit: Some(100) }) else { break };
+                let Some(last) = r.positions.last().map(|p| p.identifier.clone()) else { break };
                 positions.extend(r.positions);
+                if after.as_ref() == Some(&last) {
+                    break;
+                }
+                after = Some(last);
             }
         }
     }
